@@ -16,6 +16,12 @@ file-system module on one image, from the concrete panic-explicit models.
      → the same tokens (+ `glob2:<c>` for the pattern `*/*`) from the ProDOS model; the repair flags come from
        `Gen.C12FsFlags` (the source as it is now)
 
+  c12fs fat <units> <i:hex,…> <getnames> <sector-size repair 0|1> <wildcard repair 0|1> <label is a file 0|1> <impl tokens, comma separated>
+     → `id=T:ok|id=F:ok mount:<c> stat:<c> cat:<c> tree:<c> glob:<c> glob2:<c> get:<hexname>:<c> …` from the FAT model (`Model/Fs/Fat.lean` + `C12FsId.Fat`), the
+       queries run in sequence on one state (the FAT buffer opened by one query is there for the next).  Where the model answers
+       `unmodelled` (a stored name byte ≥ 128 on the path of that query, FAT32) the class of the implementation token is echoed:
+       that query is not compared.
+
 `<units>` = `<number of units of the flat image>:<fill byte>`, `<i:hex,…>` = the units that are not filled with the fill
 byte (`-` = none; `i:~XX` = a unit filled with the byte XX),
 `<getnames>` = hex names (comma separated, `-` = none) whose `get` the harness called, `<fixed>` = `1` if the real
@@ -115,6 +121,39 @@ def cpm (d : Dpb) (r : Raw) (names : List (String × List Nat)) (fixFree fixOver
 
 end CpmS
 
+
+section FatS
+open A2Verif.Fs.Fat A2Verif.C12FsId.Fat
+
+/-- class of the implementation token `key:<class>` -/
+def implCls (impl : List String) (key : String) : String :=
+  match impl.find? (fun t => t.startsWith (key ++ ":")) with
+  | some t => String.ofList (t.toList.drop (key.length + 1))
+  | none => "none"
+
+/-- the model's class; outside the model the implementation's class is echoed -/
+def fatTok {α : Type} (x : Fs.Fat.R α) (impl : String) : String :=
+  match x with
+  | .error .unmodelled => impl
+  | _ => (A2Verif.C12FsId.Fat.cls x).token
+
+def fat (r : Raw) (names : List (String × List Nat)) (sz wf lf : Bool) (impl : List String) : String :=
+  let idTok := if testImg sz r then "id=T:ok" else "id=F:ok"
+  match mount lf (replFor r) r with
+  | .error e => " ".intercalate [idTok, s!"mount:{(A2Verif.C12FsId.Fat.cls (.error e : Fs.Fat.R Unit)).token}"]
+  | .ok d0 =>
+    let (s, d1) := statFree d0
+    let (c, d2) := catalog [47] d1
+    let (t, d2) := treeV Gen.C12FsFlags.fatVisitBudget d2
+    let (gl, d2) := globV Gen.C12FsFlags.fatVisitBudget d2
+    let (gets, _) := names.foldl (fun (acc : List String × Disk) (hn : String × List Nat) =>
+      let (g, d') := getV wf hn.2 acc.2
+      (acc.1 ++ [s!"get:{hn.1}:{fatTok g (implCls impl s!"get:{hn.1}")}"], d')) ([], d2)
+    " ".intercalate ([idTok, "mount:ok", s!"stat:{fatTok s (implCls impl "stat")}", s!"cat:{fatTok c (implCls impl "cat")}",
+      s!"tree:{fatTok t (implCls impl "tree")}", s!"glob:{fatTok gl (implCls impl "glob")}", s!"glob2:{fatTok gl (implCls impl "glob2")}"] ++ gets)
+
+end FatS
+
 def handle (toks : List String) : String :=
   match toks with
   | ["cpm", n, units, names, bsh, exm, dsm, drm, al0, al1, fixFree, fixOverlap] =>
@@ -125,6 +164,13 @@ def handle (toks : List String) : String :=
       | some us => cpm d { unitLen := 128 * 2 ^ bsh, units := us } names (fixFree == "1") (fixOverlap == "1")
       | none => "bad-request"
     | _, _, _ => "bad-request"
+  | ["fat", n, units, names, sz, wf, lf, impl] =>
+    match parseCount n, parseNames names with
+    | some n, some names =>
+      match parseUnits n 512 units with
+      | some us => fat { unitLen := 512, units := us } names (sz == "1") (wf == "1") (lf == "1") (impl.splitOn ",")
+      | none => "bad-request"
+    | _, _ => "bad-request"
   | ["pro", n, units, names] =>
     match parseCount n, parseNames names with
     | some n, some names =>
